@@ -72,4 +72,7 @@ def run(ctx):
     ok = all(o.status == "discharged" for obs, _, _ in results for o in obs)
     ctx.under_contract("flox.core.groupby_reduce (configuration level: laziness, exception types, asserts, plan preconditions)", "proved" if ok else "bounded")
     ctx.assume("arrays abstracted to {is_dask, ndim, dtype kind}; evaluating uses of a chunked array are exactly the modelled forcing primitives (np.asarray, np.argsort, pd.unique/factorize inside callee contracts, eager kernels, find_group_cohorts, rechunk_for_blockwise, reindex_ on labels)")
-    return f"configuration-level PyVC of groupby_reduce: {len(idx)} parameter variants ({'covering subset' if ctx.quick else 'all'} of 180), {n} obligations (L-sites `lazy[...]`, in-code asserts, exception types, preconditions of dask_groupby_agg)."
+    from . import lazyfact_proofs
+
+    note2 = lazyfact_proofs.run(ctx, "C12")
+    return note2 + f" configuration-level PyVC of groupby_reduce: {len(idx)} parameter variants ({'covering subset' if ctx.quick else 'all'} of 180), {n} obligations (L-sites `lazy[...]`, in-code asserts, exception types, preconditions of dask_groupby_agg)."
